@@ -91,9 +91,10 @@ def run(ctx):
             ctx.violation(msg, obj, no_failing_input=nf)
 
     # ---- archive states for both formats, created by gopar itself (library, in memory) ----
-    ps = P.PSet({"a.dat": L.gen_content(rng, "random", 10), "b.dat": L.gen_content(rng, "random", 7), "c.dat": L.gen_content(rng, "random", 9)}, 4, 2, g=1)
+    # 2 + 2 + 1 slices, 3 recovery blocks: "repairable" (a.dat lost, 2 slices) has a spare block, "exact capacity" loses 3 slices
+    ps = P.PSet({"a.dat": L.gen_content(rng, "random", 8), "b.dat": L.gen_content(rng, "random", 7), "c.dat": L.gen_content(rng, "random", 4)}, 4, 3, g=1)
     ps.index = SETDIR + "/arc.par2"; ps.paths = {n: SETDIR + "/" + n for n in ps.files}; ps.bystanders = {}
-    lines = [L.line_create("p2", "mem", ps.index, 4, 2, 1, list(ps.paths.values()), {ps.paths[n]: d for n, d in ps.files.items()})]
+    lines = [L.line_create("p2", "mem", ps.index, 4, 3, 1, list(ps.paths.values()), {ps.paths[n]: d for n, d in ps.files.items()})]
     s1 = c04.Set1([("p.dat", L.gen_content(rng, "random", 9)), ("q.dat", L.gen_content(rng, "random", 12)), ("r.dat", L.gen_content(rng, "random", 4))], 2)
     s1.index = SETDIR + "/old.par"; s1.paths = {n: SETDIR + "/" + n for n, _ in s1.files}
     lines.append(P1.line_create("mem", s1.index, 2, list(s1.paths.values()), {s1.paths[n]: d for n, d in s1.files}))
@@ -130,7 +131,7 @@ def run(ctx):
         x = dict(full); x[datapaths[0]], x[datapaths[1]] = x[datapaths[1]], x[datapaths[0]]; st["swapped"] = x
         return st
 
-    st2 = states(full2, ps.index, list(ps.paths.values()), vols2, cap=[ps.paths["b.dat"]])      # 2 slices lost, 2 blocks
+    st2 = states(full2, ps.index, list(ps.paths.values()), vols2, cap=[ps.paths["b.dat"], ps.paths["c.dat"]])      # 3 slices lost, 3 blocks
     st1 = states(full1, s1.index, list(s1.paths.values()), vols1, cap=list(s1.paths.values())[:2])   # 2 files lost, 2 volumes
     st1.pop("swapped")
     cases = []      # (desc, cwd, view, args, fs)
